@@ -16,8 +16,8 @@ abort); the callee cspline_eval_gs (with the real pairwise view, rule R5) and ev
               (exact rational arithmetic on the library's constexpr constants, K = 1..6): with the C11 contract of cspline_eval_gs
               (value = g_0 prod exp(B~_j(u) v_j), vel / acc = successive body derivatives) and exp(log(x)) == x (C02) this is
               C^(K-1) continuity at every knot for every group (lemma L13, DESIGN.md)
-  end-to-end  directly from the extracted outputs, for vector-space groups (double K = 1..6, Vector2 K = 3) and SE2 (K = 2) where the
-              normal form decides it:  D(value, t) == value hat(vel), D(vel, t) == acc on every interval;  value (and vel for K >= 2,
+  end-to-end  directly from the extracted outputs, for vector-space groups (double K = 1..6, Vector2 K = 3; for SE2 the normal form
+              does not terminate on products of exponentials of symbolic logarithms, so Lie groups rest on the lemma):  D(value, t) == value hat(vel), D(vel, t) == acc on every interval;  value (and vel for K >= 2,
               acc for K >= 3) from the left of each interior knot equals the one at the knot;  equal control points give the
               constant curve with zero derivatives;  the spline of h * g_i equals h * (spline of g_i) with identical derivatives
 Configurations (A7): G in {double, Vector2d, SE2d, SO3d}, K in 1..6 (double), N in {K+1, K+3}; knot spacing and t0 are fixed to the
@@ -200,9 +200,12 @@ def run_contract(g, K, NP, tier="quick", seed=0, canary=False):
             if rest:
                 # exact-at-a-point paths (t == knot) are proved with t fixed as well; interval paths for all t
                 at_point = all(abs(((e["t"] - e["t0"]) / e["dt"]) % 1.0) == 0 for e in pv.samples) and 0 <= x0 <= NP - K
-                mk, desc = time_subst(e0, keep=() if at_point else ("t",))
-                prove_pairs(res, "%s/equals-definition@{%s}" % (oid, desc), rest, unit_hyp(g, NP), sampler(g, NP, e0), pv, (xt, fn, bufs), seed=seed,
-                            subst=mk, cut=("call", "div") if G is not None else None, coef_tol=Fraction(1, 10 ** 12))
+                # (SO3: the angle sqrt((B~_j(u) w)^2) needs B~_j(u) as a number: t is fixed to the sample values as well)
+                fix_t = at_point or g == "so3"
+                for e_s in (pv.samples[:3] if fix_t else [e0]):
+                    mk, desc = time_subst(e_s, keep=() if fix_t else ("t",))
+                    prove_pairs(res, "%s/equals-definition@{%s}" % (oid, desc), rest, unit_hyp(g, NP), sampler(g, NP, e_s), pv, (xt, fn, bufs), seed=seed,
+                                subst=mk, cut=("call", "div") if G is not None else None, coef_tol=Fraction(1, 10 ** 12), budget=20)
             # locality: window of the interval the samples fall into
             i_star = min(max(int(x0 // 1), 0), NP - K - 1)
             allowed = {"c%d" % j for j in range(i_star * R, (i_star + K + 1) * R)}
@@ -217,6 +220,57 @@ def run_contract(g, K, NP, tier="quick", seed=0, canary=False):
         if canary:
             pv = [v for v in views if v.status == "ok"][0]
             prove_pairs(res, tag + "/canary", [("x", pv.out("tmax")[0], dag.var("t0"))], None, None, pv, None, expect_fail=True)
+    guarded(res, tag + "::operator()", go)
+    return res
+
+
+def run_contract_fixed(g, K, NP, tier="quick", seed=0):
+    """the contract clause with t0, dt and t CONCRETE (one execution per point of the stratified time grid), control points symbolic:
+    used where the normal form cannot carry a symbolic t through the group's exponential (SO3)"""
+    ty, R, N, G = CFG[g]
+    res = Results(PROP)
+    tag = "%s/BSpline<%d,%s>/N=%d" % (PROP, K, ty, NP)
+    res.configs.add("BSpline<%d,%s>, %d control points (time grid)" % (K, ty, NP))
+    xt = guarded(res, tag + "/extract", bs_extract)
+    if xt is None:
+        return res
+    p = "b%d%s%d" % (K, g, NP)
+    rng = random.Random(seed + 23 * K + NP)
+    fn = p + "_evalref"
+    cvars = {"c%d" % i for i in range(NP * R)}
+
+    def go():
+        res.functions.add("BSpline<K,G>::operator(), t_min, t_max")
+        for (t0, dt) in (GRID if tier == "thorough" else GRID[1:2]):
+            for lab, t in time_points(K, NP, t0, dt):
+                bufs = [("c", NP * R, "d"), ("t0", None, "dconst:%r" % t0), ("dt", None, "dconst:%r" % dt), ("t", None, "dconst:%r" % t), ("l", R, "d"), ("lv", N, "d"),
+                        ("la", N, "d"), ("tmin", 1, "d"), ("tmax", 1, "d"), ("r", R, "d"), ("rv", N, "d"), ("ra", N, "d")]
+                envs = [ctrl_env(g, NP, rng) for _ in range(3)]
+                views = xt.run_concolic(fn, bufs, envs)
+                oid0 = "%s::operator()@{t0=%g,dt=%g,t=%g}" % (tag, t0, dt, t)
+                report_abnormal(res, oid0, views)
+                for k, pv in enumerate(v for v in views if v.status == "ok"):
+                    res.paths += 1
+                    oid = "%s/p%d" % (oid0, k)
+                    prs = [("g%d" % i, a, b) for i, (a, b) in enumerate(zip(pv.out("l"), pv.out("r")))]
+                    prs += [("vel%d" % i, a, b) for i, (a, b) in enumerate(zip(pv.out("lv"), pv.out("rv")))]
+                    prs += [("acc%d" % i, a, b) for i, (a, b) in enumerate(zip(pv.out("la"), pv.out("ra")))]
+                    prs += [("t_min", pv.out("tmin")[0], dag.const(t0)), ("t_max", pv.out("tmax")[0], dag.const(t0 + (NP - K) * dt))]
+                    rest = split_same(res, oid + "/equals-definition", prs)
+                    if rest:
+                        prove_pairs(res, oid + "/equals-definition", rest, unit_hyp(g, NP), lambda rn: ctrl_env(g, NP, rn), pv, (xt, fn, bufs), seed=seed,
+                                    cut=("call", "div"), coef_tol=Fraction(1, 10 ** 12), budget=20)
+                    x0 = (t - t0) / dt
+                    i_star = min(max(int(x0 // 1), 0), NP - K - 1)
+                    allowed = {"c%d" % j for j in range(i_star * R, (i_star + K + 1) * R)}
+                    used = set(n.args[0] for n in dag.leaves([x for nm in ("l", "lv", "la") for x in pv.out(nm)])) & cvars
+                    ok = used <= allowed
+                    res.add("%s/local-support(interval %d)" % (oid, i_star), "proved" if ok else "refuted", "struct", 0.0,
+                            "depends on control points %d..%d only" % (i_star, i_star + K) if ok else "outputs depend on %s" % sorted(used - allowed)[:6],
+                            witness=None if ok else dict(env=fmt_env(pv.samples[0])),
+                            extra=None if ok else dict(confirmed=True, replay=write_replay(oid + "/local-support", dict(
+                                obligation=oid + "/local-support", reason="outputs on knot interval %d depend on control-point coordinates %s" % (i_star, sorted(used - allowed)),
+                                witness=fmt_env(pv.samples[0]), t0=t0, dt=dt, t=t))))
     guarded(res, tag + "::operator()", go)
     return res
 
@@ -297,7 +351,7 @@ def run_smooth(g, K, NP, tier="quick", seed=0):
                 prs = [("dx%d" % k, x, y) for k, (x, y) in enumerate(zip(dd.D(pv.out("l"), seeds), pv.out("lv")))]
             prs += [("dvel%d" % k, x, y) for k, (x, y) in enumerate(zip(dd.D(pv.out("lv"), seeds), pv.out("la")))]
             prove_pairs(res, "%s/interval%d/body-derivatives@{%s}" % (tag, i, desc), prs, unit_hyp(g, NP), sampler(g, NP, e), pv, (xt, fn, bufs), seed=seed,
-                        subst=mk, coef_tol=Fraction(1, 10 ** 12))
+                        subst=mk, coef_tol=Fraction(1, 10 ** 12), budget=20)
         # continuity: the interior expression of interval i-1 at t = knot i  vs  the path taken exactly at knot i
         for i in range(1, nint + 1):
             tk = t0 + i * dt
@@ -317,7 +371,7 @@ def run_smooth(g, K, NP, tier="quick", seed=0):
                 else:
                     prs += [("%s%d" % (nm, k), a, b) for k, (a, b) in enumerate(zip(pl.out(key), pk.out(key)))]
             prove_pairs(res, "%s/knot%d/left-limit==value(C^%d)" % (tag, i, K - 1), prs, unit_hyp(g, NP), sampler(g, NP, e), None, None, seed=seed,
-                        subst=mk, coef_tol=Fraction(1, 10 ** 12))
+                        subst=mk, coef_tol=Fraction(1, 10 ** 12), budget=20)
         # constants: equal control points
         for lab, t in (("interior", t0 + 0.5 * dt), ("knot", t0 + dt if nint > 1 else t0), ("below", t0 - dt), ("above", t0 + (nint + 1) * dt)):
             pv, e = path_at(t, const=True)
@@ -330,7 +384,7 @@ def run_smooth(g, K, NP, tier="quick", seed=0):
             l, lv, la = outs[:R], outs[R:R + N], outs[R + N:]
             prs = cmp_pairs(g, l, vars_("c", R)) + [("vel%d" % k, a, ZERO) for k, a in enumerate(lv)] + [("acc%d" % k, a, ZERO) for k, a in enumerate(la)]
             mk, desc = time_subst(e)
-            prove_pairs(res, "%s/constant/%s@{%s}" % (tag, lab, desc), prs, unit_hyp(g, 1), None, None, None, seed=seed, subst=mk, coef_tol=Fraction(1, 10 ** 12))
+            prove_pairs(res, "%s/constant/%s@{%s}" % (tag, lab, desc), prs, unit_hyp(g, 1), None, None, None, seed=seed, subst=mk, coef_tol=Fraction(1, 10 ** 12), budget=20)
     guarded(res, tag + "::smooth", go)
     return res
 
@@ -368,18 +422,18 @@ def run_equiv(g, K, NP, tier="quick", seed=0):
             prs += [("vel%d" % i, a, b) for i, (a, b) in enumerate(zip(pv.out("lv"), pv.out("rv")))]
             prs += [("acc%d" % i, a, b) for i, (a, b) in enumerate(zip(pv.out("la"), pv.out("ra")))]
             prove_pairs(res, "%s/left-equivariance/p%d@{%s}" % (tag, k, desc), prs, unit_hyp(g, NP, ("c", "h")), sampler(g, NP, e0), pv, (xt, fn, bufs), seed=seed,
-                        subst=mk, coef_tol=Fraction(1, 10 ** 12))
+                        subst=mk, coef_tol=Fraction(1, 10 ** 12), budget=20)
     guarded(res, tag + "::equivariance", go)
     return res
 
 
 E2E = [("d", 1, 4), ("d", 2, 5), ("d", 3, 6), ("d", 6, 9), ("v2", 3, 6)]
-E2E_THOROUGH = [("d", 4, 7), ("d", 5, 8), ("se2", 2, 5)]
+E2E_THOROUGH = [("d", 4, 7), ("d", 5, 8)]
 
 
 def tasks(tier, seed=0):
     cf = QUICK if tier == "quick" else CONFIGS
-    t = [("c13", "run_contract", c, dict(tier=tier, seed=seed, canary=(c == ("d", 3, 6)))) for c in cf]
+    t = [("c13", "run_contract" if c[0] != "so3" else "run_contract_fixed", c, dict(tier=tier, seed=seed, **(dict(canary=(c == ("d", 3, 6))) if c[0] != "so3" else {}))) for c in cf]
     t += [("c13", "run_basis", (K,), dict(tier=tier, seed=seed)) for K in range(1, 7)]
     for c in E2E + (E2E_THOROUGH if tier == "thorough" else []):
         t.append(("c13", "run_smooth", c, dict(tier=tier, seed=seed)))
